@@ -5,11 +5,15 @@ ongoing transmission touches nothing but the activity time stamp; every state tr
 handler is one its `debug_assert_state!` allows (the `to*` functions are total exactly on the
 asserted source states); the receive helpers `poll` relies on terminate without panicking on any
 buffer (C16), as does the decoder (C10); the GAP arithmetic never overflows under the station
-invariant (C12).  The lift to "no reachable state panics" (`Inv`, `inv_step`) is kept as `Prop`.
+invariant (C12); and — the headline — `poll_never_panics`: from `new`, under ANY sequence of
+poll / set_online / set_offline calls with ANY arriving bytes, times and PHY flags, and ANY
+applications that build encodable telegrams, no call panics (`Lemmas/StationInv.lean`: invariant `Inv`,
+preserved by every handler).
 -/
 import ProfiVerif.Model.Station
 import ProfiVerif.Props.C16
 import ProfiVerif.Props.C12
+import ProfiVerif.Lemmas.StationInv
 
 namespace PV.C05
 open PV
@@ -33,7 +37,7 @@ theorem busy_poll_noop (c : Ctx) (now : Int) (hon : c.s.online = true)
     pollInner c now true = .ok (upd c fun s => markBusActivity s now) := by
   unfold pollInner
   simp only [hon]
-  cases h : c.s.st <;> simp_all [Res.bind]
+  cases h : c.s.st <;> simp_all [Res.bind, pollStart, ongoing]
 
 /-- The decoder and the receive helpers used by every handler are total on every buffer. -/
 theorem rx_helpers_total (rx : Bytes) :
@@ -71,14 +75,85 @@ theorem nextGap_defined (s : Station) (cur : Nat) (h1 : 0 < s.p.hsa) (h2 : s.p.h
   have := C12.next_gap_no_panic s.p.address s.ring.ns s.p.hsa cur h1 h2 hc
   cases h : nextGapPoll s.p.address s.ring.ns s.p.hsa cur <;> simp_all
 
-/-- Full statement (not yet a theorem): no poll of a station reachable from `new` by the documented
-API (set_online / set_offline / poll with non-decreasing time, applications that build valid
-telegrams) panics. -/
-def poll_never_panics_full : Prop :=
-  ∀ (p : Params) (apps : Apps) (calls : List (Int × Bool × Bytes)),
-    p.address < p.hsa → p.hsa ≤ 126 → 0 < p.rate →
-    (∀ script ∈ apps, ∀ a ∈ script, match a with
-      | .decline => True | .send h pdu => h.lengthByte pdu.length ≤ 249) →
-    True  -- the run of `poll` over `calls` from `(Station.new p).setOnline` never yields `.panic`
+/-! ## The lift: no reachable state panics -/
+
+/-- The API calls the documentation allows on a station (`set_passive` is `todo!()` in the source). -/
+inductive ApiCall
+  | poll (now : Int) (phyTransmitting : Bool) (arrived : Bytes)   -- bytes that reached the PHY since the last poll
+  | setOnline
+  | setOffline
+
+/-- Station + application scripts + PHY receive buffer. -/
+structure World where
+  s : Station
+  apps : Apps
+  rx : Bytes
+
+/-- One API call; `none` = the call panicked. -/
+def World.step (w : World) : ApiCall → Option World
+  | .poll now phyTx arrived =>
+    match w.s.poll w.apps now phyTx (w.rx ++ arrived) with
+    | .ok c => some { s := c.s, apps := c.apps, rx := c.rx }
+    | .panic _ => none
+  | .setOnline => some { w with s := w.s.setOnline }
+  | .setOffline => some { w with s := w.s.setOffline }
+
+def World.run (w : World) : List ApiCall → Option World
+  | [] => some w
+  | a :: rest => match w.step a with
+    | some w' => w'.run rest
+    | none => none
+
+/-- The invariant holds initially for every parameter set `ParametersBuilder` can produce
+(address < HSA ≤ 126) and every set of applications that build valid telegrams. -/
+theorem inv_init (p : Params) (apps : Apps) (h1 : p.address < p.hsa) (h2 : p.hsa ≤ 126) (hs : ScriptsOk apps) :
+    Inv (Station.new p) apps := inv_new p apps h1 h2 hs
+
+/-- Every API call preserves the invariant and does not panic. -/
+theorem inv_step (w : World) (a : ApiCall) (h : Inv w.s w.apps) :
+    ∃ w', w.step a = some w' ∧ Inv w'.s w'.apps ∧ w'.apps.length = w.apps.length := by
+  cases a with
+  | poll now phyTx arrived =>
+    obtain ⟨c, hc, hi, hl⟩ := pollInner_good { s := w.s, apps := w.apps, rx := w.rx ++ arrived } now phyTx h rfl
+    refine ⟨{ s := c.s, apps := c.apps, rx := c.rx }, ?_, hi, hl⟩
+    simp only [World.step, Station.poll]
+    rw [hc]
+  | setOnline =>
+    refine ⟨_, rfl, ?_, rfl⟩
+    exact ⟨h.addr, h.hsa, h.ring, fun ho => by simp [Station.setOnline] at ho, h.gap, h.await1, h.await2, h.app, h.appWait,
+      h.scripts, h.noPassive⟩
+  | setOffline =>
+    exact ⟨_, rfl, inv_new _ _ h.addr h.hsa h.scripts, rfl⟩
+
+/-- **`poll_never_panics`**: for every valid parameter set, every set of applications (any number,
+including none, with arbitrary send/decline behaviour as long as they build encodable telegrams) and
+**every** sequence of `poll` / `set_online` / `set_offline` calls — whatever bytes arrive between
+polls (valid telegrams, garbage, collisions), at whatever times, with whatever the PHY reports about
+its transmitter — no call reaches any of the panics of `active.rs` (state-transition assertions,
+`unreachable!()` accessors, the GAP self-poll assertion, indices, `unwrap`s, arithmetic overflow), and
+the receive loop terminates.  Time does not even have to be monotone. -/
+theorem poll_never_panics (p : Params) (apps : Apps) (h1 : p.address < p.hsa) (h2 : p.hsa ≤ 126)
+    (hs : ScriptsOk apps) (calls : List ApiCall) :
+    ∃ w, (World.run { s := Station.new p, apps := apps, rx := [] } calls) = some w ∧ Inv w.s w.apps := by
+  suffices H : ∀ (calls : List ApiCall) (w : World), Inv w.s w.apps → ∃ w', w.run calls = some w' ∧ Inv w'.s w'.apps from
+    H calls _ (inv_init p apps h1 h2 hs)
+  intro calls
+  induction calls with
+  | nil => intro w hw; exact ⟨w, rfl, hw⟩
+  | cons a rest ih =>
+    intro w hw
+    obtain ⟨w1, h1', hi1, -⟩ := inv_step w a hw
+    obtain ⟨w2, h2', hi2⟩ := ih w1 hi1
+    exact ⟨w2, by simp only [World.run, h1', h2'], hi2⟩
+
+/-- Non-vacuity: a concrete station (TS 7, HSA 126) with one application. -/
+def demoParams : Params :=
+  { address := 7, rate := 500000, slotBits := 200, ttrBits := 20000, gapWait := 10, hsa := 126, maxRetry := 1,
+    minTsdrBits := 11 }
+
+example : ∃ w, World.run { s := Station.new demoParams, apps := [[.decline]], rx := [] }
+    [.setOnline, .poll 100 false [0xDC, 7, 3], .poll 100000 false [], .setOffline] = some w ∧ Inv w.s w.apps :=
+  poll_never_panics _ _ (by decide) (by decide)
+    (by intro s hs a ha h pdu he; simp at hs; subst hs; simp at ha; subst ha; cases he) _
 
 end PV.C05
